@@ -1104,9 +1104,14 @@ FrameRefs(m, fr) ==
     {fr.env[i][2] : i \in 1..Len(fr.env)} \cup RefsSeq(fr.vs) \cup RefsV(fr.self)
     \cup (IF fr.selfcell > 0 THEN {fr.selfcell} ELSE {}) \cup (IF fr.clo > 0 THEN {fr.clo} ELSE {})
     \cup UNION {RefsV(fr.ctl[i].it) \cup RefsV(fr.ctl[i].pend.v) : i \in 1..Len(fr.ctl)}
-FiberRefs(m, f) ==
+FiberRefsOf(m, f) ==
     UNION {FrameRefs(m, f.frames[i]) : i \in 1..Len(f.frames)} \cup (IF f.clo > 0 /\ (f.frames # <<>> \/ f.st = "new") THEN {f.clo} ELSE {}) \cup RefsV(f.parked)
     \cup (IF f.caller > 0 THEN FiberAddr(m, f.caller) ELSE {})
+(* a fiber in the middle of `g.call()` holds g - the receiver stays in the caller's stack slot until the call returns, i.e. for ever
+   if g died with an uncaught error (g in turn keeps its `caller` link) *)
+FiberRefs(m, fi) ==
+    FiberRefsOf(m, m.fibers[fi])
+    \cup (IF m.fibers[fi].frames # <<>> THEN UNION {FiberAddr(m, g) : g \in {x \in 1..Len(m.fibers) : m.fibers[x].caller = fi}} ELSE {})
 (* a captured variable whose scope is still live sits on the stack of the fiber running that scope (an open upvalue), and keeps
    that fiber - with everything on its stack - alive for as long as a closure can reach the variable *)
 OwnerFibers(m, a) ==
@@ -1122,7 +1127,7 @@ Succ(m, a) ==
       [] o.k = "clo" -> CapturedCells(m, o)
       [] o.k = "bound" -> RefsV(o.recv) \cup RefsV(o.meth)
       [] o.k = "iter" -> {o.src}
-      [] o.k = "fiber" -> FiberRefs(m, m.fibers[o.idx])
+      [] o.k = "fiber" -> FiberRefs(m, o.idx)
       [] o.k = "module" -> IF o.path \in DOMAIN m.glob THEN UNION {RefsV(m.glob[o.path][x]) : x \in DOMAIN m.glob[o.path]} ELSE {}
       [] OTHER -> {}
 RECURSIVE ReachFrom(_, _, _)
@@ -1135,7 +1140,7 @@ RECURSIVE ActiveChain(_, _, _)
 ActiveChain(m, fi, fuel) == IF fi = 0 \/ fuel = 0 THEN {} ELSE {fi} \cup ActiveChain(m, m.fibers[fi].caller, fuel - 1)
 Roots(m) == UNION {UNION {RefsV(m.glob[mod][x]) : x \in DOMAIN m.glob[mod]} : mod \in DOMAIN m.glob}
             \cup {m.rc[i] : i \in 1..Len(m.rc)} \cup {m.modst[j].obj : j \in 1..Len(m.modst)}
-            \cup UNION {FiberAddr(m, fi) \cup FiberRefs(m, m.fibers[fi]) : fi \in ActiveChain(m, m.cur, Len(m.fibers))}
+            \cup UNION {FiberAddr(m, fi) \cup FiberRefs(m, fi) : fi \in ActiveChain(m, m.cur, Len(m.fibers))}
 Live(m) == LET r == Roots(m) IN ReachFrom(m, r, r)
 (* counts of the objects created by the program (addresses above the prelude's) that are still reachable, by kind *)
 LiveCounts(m) ==
